@@ -191,6 +191,12 @@ def one_request(res, sb, sw_holder, write, comps, method, cond, observe):
         msg.opt.if_match = [b""]
     elif cond == "im-wrong":
         msg.opt.if_match = [b"\x01\x02"]
+    elif cond == "inm+im-wrong":
+        msg.opt.if_none_match = True
+        msg.opt.if_match = [b"\x01\x02"]
+    elif cond == "inm+im-empty":
+        msg.opt.if_none_match = True
+        msg.opt.if_match = [b""]
     if observe:
         msg.opt.observe = 0
     before = sb.snapshot()
@@ -241,7 +247,7 @@ def one_request(res, sb, sw_holder, write, comps, method, cond, observe):
 
 ALPHA = ["", ".", "..", "a", "sub", "f.txt", "h.txt", "a/b", "../outside.txt", "\x00", "f.txt\x00", "~", "ö", "%2e%2e", "..%2foutside.txt"]
 METHODS = (GET, PUT, DELETE, POST, FETCH)
-CONDS = ("none", "inm", "im-empty", "im-wrong")
+CONDS = ("none", "inm", "im-empty", "im-wrong", "inm+im-wrong", "inm+im-empty")
 
 
 def job(arg):
